@@ -768,7 +768,14 @@ class PendingAugAssign(PendingNode[AugAssign]):
             # todo: could be optimized if slice is const
             tmp_slice_name = Name(id=ol_name(OL_AUGASSIGN_SLICE_TMP))
             target = self.node.target
-            subscript_parent = expr_transf(self.nsp, target.value)
+            # obj[i] += v: obj runs once, before i
+            subscript_parent = Name(id=ol_name(OL_AUGASSIGN_PARENT_TMP))
+            return_list.append(
+                NamedExpr(
+                    target=subscript_parent,
+                    value=expr_transf(self.nsp, target.value),
+                )
+            )
 
             slice_expr = utils.convert_index(expr_transf(self.nsp, target.slice))
 
@@ -811,7 +818,14 @@ class PendingAugAssign(PendingNode[AugAssign]):
             )
         elif isinstance(self.node.target, Attribute):
             target = self.node.target
-            attr_parent = expr_transf(self.nsp, target.value)
+            # obj.attr += v: obj runs once
+            attr_parent = Name(id=ol_name(OL_AUGASSIGN_PARENT_TMP))
+            return_list.append(
+                NamedExpr(
+                    target=attr_parent,
+                    value=expr_transf(self.nsp, target.value),
+                )
+            )
             return_list.append(
                 NamedExpr(
                     target=tmp_target_name,
